@@ -11,6 +11,7 @@ oracle  : on libcoap's output alone - the peer's result equals the original mess
           a different context is rejected; rejected deliveries answer with an error or not at all.
 """
 import re
+import time
 import vlib
 import tie
 import gen_oscore as G
@@ -120,7 +121,7 @@ def main(run):
     r = tie.rng_for(run, "c14")
 
     # ---------------------------------------------------------------- exchanges
-    n_ex = 150 if quick else 4000
+    n_ex = 150 if quick else 2500
     cases = []          # (exchange or None, line)
     corpus = vlib.read_corpus("C14")
     for ln in corpus:
@@ -130,6 +131,7 @@ def main(run):
         x = G.gen_exchange(r, big=(i % 8 == 0))
         cases.append((x, G.line_of(x)))
     lines = [c[1] for c in cases]
+    t_phase = time.time()
     # corpus deliveries (tampered datagrams of fixed defects): reference and libcoap must agree
     cun = [ln for ln in corpus if ln.startswith("oscun ")]
     if cun:
@@ -201,6 +203,8 @@ def main(run):
                 tamper_jobs.append(([secret, salt, idctx, cid, sid],
                                     ["resp", G.tok(x["req"]["token"]), str(x["cseq"])], fc["p2"], (i, "resp")))
 
+    run.cov.setdefault("phase_seconds", {})["exchanges"] = round(time.time() - t_phase, 1)
+    t_phase = time.time()
     # ---------------------------------------------------------------- different context
     other = []
     for ctxt, mode, dg, info in tamper_jobs:
@@ -215,8 +219,7 @@ def main(run):
         ]
         for c2, what in alt:
             other.append((" ".join(["oscun"] + c2 + mode + [dg]), what, info))
-    if quick:
-        other = other[:240]
+    other = other[:240] if quick else other[:3000]
     am, ac, _ = tie.run_both(model, drv, [o[0] for o in other])
     n_other_bad = 0
     for k, (ln, what, info) in enumerate(other):
@@ -234,8 +237,10 @@ def main(run):
                               no_input=True)
     run.cov["different_context"] = {"deliveries": len(other), "failures": n_other_bad}
 
+    run.cov["phase_seconds"]["different_context"] = round(time.time() - t_phase, 1)
+    t_phase = time.time()
     # ---------------------------------------------------------------- bit flips and truncations
-    budget = 300_000 if quick else 12_000_000     # bits+truncations delivered to libcoap
+    budget = 1_500_000 if quick else 40_000_000     # bits+truncations delivered to libcoap
     jobs = []
     used = 0
     for j in sorted(tamper_jobs, key=lambda j: len(j[2])):
@@ -248,6 +253,7 @@ def main(run):
     fo, fcr = vlib.run_lines_robust(drv, flines, timeout=1500)
     stats = {"datagrams": len(jobs), "variants": 0, "parse_rej": 0, "osc_rej": 0, "plain": 0,
              "accepted_unprotected_field": 0, "accepted_protected_field": 0, "crashes": len(fcr)}
+    nother = 0
     followups = []       # oscun lines for accepted / plain variants + a sample of rejected ones
     nflip_bad = 0
     for (ctxt, mode, dgh, info), ln, out in zip(jobs, flines, fo):
@@ -298,17 +304,24 @@ def main(run):
                                           "replay: %s\nimpl : %s\n" % (dgh, tag, un, rest), tag="flip%d" % nflip_bad)
                 elif kind == "A":
                     stats["accepted_unprotected_field"] += 1
+                    # type / message id / token / outer-option flips: compare a sample with the reference
+                    nother += 1
+                    if nother % (6 if quick else 2) != 1:
+                        continue
                 followups.append((un, info, tag))
         # rejected variants: confirm a sample against the reference (all of them for short datagrams)
         nvar = 9 * len(dg)
         # the reference costs ~0.06 ms per byte and delivery: bound the work per datagram
-        want = max(3, min(24, 2400 // len(dg))) if quick else max(8, min(400, 40000 // len(dg)))
+        want = max(3, min(24, 2400 // len(dg))) if quick else max(8, min(60, 12000 // len(dg)))
         step = max(1, nvar // want)
         for v in range(r.randrange(step), nvar, step):
             tag = ("b%d" % v) if v < 8 * len(dg) else ("t%d" % (v - 8 * len(dg)))
             var = apply_variant(dg, tag)
             followups.append((" ".join(["oscun"] + ctxt + mode + [var.hex() if var else "-"]), info, tag))
+    run.cov["phase_seconds"]["flips_impl"] = round(time.time() - t_phase, 1)
+    t_phase = time.time()
     um, uc, _ = tie.run_both(model, drv, [f[0] for f in followups])
+    run.cov["phase_seconds"]["flips_reference"] = round(time.time() - t_phase, 1)
     ndis = 0
     for k, (ln, info, tag) in enumerate(followups):
         run.cov["evaluations"] += 1
@@ -319,6 +332,19 @@ def main(run):
                 run.violation("tampered delivery: implementation differs from the reference (variant %s)" % tag,
                               "case: %s\nmodel: %s\nimpl : %s\n" % (ln, um[k], uc[k]), tag="un%d" % ndis,
                               no_input=not uc[k].startswith("OK"))
+    if not quick:
+        # sanitizer variant (ASan + UBSan, libcoap itself instrumented): the exchanges and the
+        # tampered deliveries of the shortest datagrams again; only crashes/reports matter here
+        adrv = vlib.build_driver("h_oscore", ["h_oscore.c"], variant="asan", wraps=WRAPS)
+        alines = lines[:600] + flines[:400]
+        ao, acr = vlib.run_lines_robust(adrv, alines, timeout=1500,
+                                        env={"ASAN_OPTIONS": "detect_leaks=0:abort_on_error=1"})
+        stats["sanitizer_lines"] = len(alines)
+        stats["sanitizer_reports"] = len(acr)
+        for idx, rc, err in acr[:2]:
+            nflip_bad += 1
+            run.violation("sanitizer report / crash in libcoap (rc=%d)" % rc,
+                          "case: %s\n\n%s\n" % (alines[idx], err), tag="asan%d" % idx)
     stats["reference_checked"] = len(followups)
     stats["reference_disagreements"] = ndis
     run.cov["tamper"] = stats
